@@ -13,6 +13,8 @@ for pid, v in [("C07", "c07_verdicts"), ("C13", "c13_verdicts")]:
     reg(pid,
         check_imports=["Model.Block", "Model.Forkable", "Model.Burst", "Model.Hub", "Model.CursorResolver", "Model.Joining", "Check.Burst_Check", "Check.C07_Check"],
         case_type="c07_case", verdicts=v, scope="c07_in_scope",
+        codes={1: "model-mismatch", 2: "property-checker-rejects-impl", 3: "mismatch+property", 4: "impl-hang-or-panic",
+               5: "delivered-block-is-not-the-stored-block"},
         property_modules=[], theorems=[], proof_files=list(J_FILES),
         n_quick=96, n_thorough=4000, n_escalate=600, procs=12,
         rule=RULE,
